@@ -6,6 +6,17 @@ use lipe_find_parser::ast::*;
 use lipe_find_parser::Mode;
 use std::rc::Rc;
 
+/// strings harvested by the orchestrator from the string literals of the code under test
+/// (a special-cased value must be spelt somewhere in the source): used as user strings
+pub fn dict() -> &'static Vec<String> {
+    static D: std::sync::OnceLock<Vec<String>> = std::sync::OnceLock::new();
+    D.get_or_init(|| {
+        std::env::var("FPVERIF_DICT").ok().and_then(|p| std::fs::read_to_string(p).ok())
+            .map(|t| t.lines().filter_map(|l| serde_json::from_str::<String>(l).ok()).filter(|w| !w.is_empty() && !w.contains('\0')).collect())
+            .unwrap_or_default()
+    })
+}
+
 pub const BLANKS: &[&str] = &[" ", "\t", "\n", "\r", "  ", "\r\n", " \t "];
 
 pub fn rand_number(rng: &mut Rng) -> String {
@@ -27,7 +38,14 @@ pub fn rand_cmp(rng: &mut Rng) -> String {
 }
 
 pub fn rand_word(rng: &mut Rng) -> String {
-    const WORDS: &[&str] = &["foo", "*.txt", "a?c", "[ab]*", "Foo", "x", "data.out", "lustre", "user.attr", "é", "a-b", "file_1", "OUT", "t*"];
+    let d = dict();
+    if !d.is_empty() && rng.chance(1, 5) {
+        let w = &d[rng.below(d.len())];
+        // keep it one bare word for the textual generators
+        if !w.chars().any(|c| c.is_whitespace() || c == ')' || c == '\'' || c == '"') { return w.clone(); }
+    }
+    const WORDS: &[&str] = &["foo", "*.txt", "a?c", "[ab]*", "Foo", "x", "data.out", "lustre", "user.attr", "é", "a-b", "file_1", "OUT", "t*",
+        "/dev/null", "/dev/stdout", "-", "/dev/stderr", ".", "..", "stdout", "0", "{}", "#f", "nil"];
     WORDS[rng.below(WORDS.len())].to_string()
 }
 
@@ -174,17 +192,17 @@ pub fn rand_word_soup(rng: &mut Rng, len: usize) -> String {
     (0..len).map(|_| W[rng.below(W.len())]).collect::<Vec<_>>().join(" ")
 }
 
-const PRIM3: &[&str] = &["-true", "-name x", "-print"];
+const PRIM3: &[&str] = &["-true", "-name x", "-print", "-depth"];
 
 pub fn rand_word_soup3(rng: &mut Rng, len: usize) -> String {
-    const W: &[&str] = &["(", ")", "!", ",", "-a", "-and", "-o", "-or", "-true", "-name x", "-print", "-true", "-print"];
+    const W: &[&str] = &["(", ")", "!", ",", "-a", "-and", "-o", "-or", "-true", "-name x", "-print", "-true", "-print", "-depth"];
     // biased towards nearly well-formed sequences: start from a sentence and splice words
     (0..len).map(|_| W[rng.below(W.len())]).collect::<Vec<_>>().join(" ")
 }
 
 pub fn rand_expr3_text(rng: &mut Rng, depth: usize) -> String {
     if depth == 0 || rng.chance(1, 4) {
-        return PRIM3[rng.below(3)].to_string();
+        return PRIM3[rng.below(4)].to_string();
     }
     match rng.below(7) {
         0 => format!("! {}", rand_atom3_text(rng, depth - 1)),
@@ -197,7 +215,7 @@ pub fn rand_expr3_text(rng: &mut Rng, depth: usize) -> String {
 }
 
 pub fn rand_atom3_text(rng: &mut Rng, depth: usize) -> String {
-    if depth == 0 || rng.chance(1, 3) { PRIM3[rng.below(3)].to_string() } else { format!("( {} )", rand_expr3_text(rng, depth - 1)) }
+    if depth == 0 || rng.chance(1, 3) { PRIM3[rng.below(4)].to_string() } else { format!("( {} )", rand_expr3_text(rng, depth - 1)) }
 }
 
 pub fn mutate(rng: &mut Rng, s: &str) -> String {
@@ -270,8 +288,11 @@ fn leaf_actions(rng: &mut Rng, no_direct: bool) -> Expression {
 }
 
 pub fn rand_string(rng: &mut Rng, hostile: bool) -> String {
+    let d = dict();
+    if !d.is_empty() && rng.chance(1, 5) { return d[rng.below(d.len())].clone(); }
     if hostile && rng.chance(1, 3) {
-        const H: &[char] = &['"', '\\', '~', '%', '(', ')', ';', '#', '\n', '\u{1}', 'é', 'a', ' ', '*'];
+        const H: &[char] = &['"', '\\', '~', '%', '(', ')', ';', '#', '\n', '\u{1}', 'é', 'a', ' ', '*', '\u{2028}', '\u{3000}', '\u{85}',
+            '\u{a0}', '\u{1680}', '\u{200b}', '\u{feff}', '\u{1f600}', '\u{7f}', '\r', '\t', '\u{1b}', '\u{ff}', '\u{100}', '\'', '|', '[', '{', '}'];
         let n = 1 + rng.below(5);
         (0..n).map(|_| H[rng.below(H.len())]).collect()
     } else {
@@ -460,7 +481,7 @@ pub fn rand_chain(rng: &mut Rng, n: usize) -> Expression {
             2 => E::Action(Action::FilePrintNull(format!("f{}", idx))),
             3 => E::Action(Action::FilePrintFormatted(format!("f{}", idx), nl_fmt(rng, true))),
             4 => E::Action(Action::FilePrintFormatted(format!("f{}", idx), nl_fmt(rng, false))),
-            5 => E::Test(Test::Name(format!("n{}*", idx))),
+            5 => if rng.chance(1, 4) { E::Test(Test::Name(["a\\b", "a\\\\b", "q\"x", "q\\\"x", "t\u{1}", "t\\x01"][rng.below(6)].to_string())) } else { E::Test(Test::Name(format!("n{}*", idx))) },
             6 => E::Test(Test::Name(format!("n{}", idx))),
             7 => E::Test(Test::InsensitiveName(format!("n{}*", idx))),
             8 => E::Test(Test::InsensitiveName(format!("N{}", idx))),
